@@ -296,8 +296,14 @@ def check_cli(case, ctx: Ctx):
             args.append("--cis-only")
         if o["trans_only"]:
             args.append("--trans-only")
-        rc, _, exc = run_cli(args)
-        check(rc == 0 and exc is None, f"cooler balance {args[2:]} failed: exit {rc} {exc!r}")
+        first = list(args)
+        if case["twice"]:
+            # the column that --force later replaces comes from a STRICTER run (more bins masked): nothing of it may
+            # survive into the forced run
+            first[first.index("--min-nnz") + 1] = o["min_nnz"] + 4
+            first[first.index("--mad-max") + 1] = 1
+        rc, _, exc = run_cli(first)
+        check(rc == 0 and exc is None, f"cooler balance {first[2:]} failed: exit {rc} {exc!r}")
         if case["twice"]:
             rc2, _, _ = run_cli(args)
             check(rc2 != 0, "a second 'cooler balance' without --force overwrote an existing weight column")
